@@ -414,8 +414,16 @@ def run(ctx):
     res = r0_negotiation(ctx)
     r0, ok = res[0], res[1]
     import os
+    # `the chosen locale is always a supported one ... with no match the default locale is returned`: what the negotiation is handed as
+    # the supported locales (get_all + as_icu_locale of the generated enum) and what `L::default()` is (the first variant, the configured
+    # default put first by the configuration loader) - the clauses of C13.R0 / C19.R0, decided by rules/c13.py and rules/c19.py
+    from rules import c13
+    r5 = c13.supported_and_default(ctx, "C12.R5", "the supported locales negotiated over are the configured ones as written, the default is the configured default",
+                                   "`the chosen locale is always a supported one; an exact match beats a less specific one; with no match the default locale is returned`: the negotiation "
+                                   "compares ICU locales handed out by the generated enum - a constant built from another spelling of the configured name (canonicalised, truncated) "
+                                   "loses the exact match; a configuration loader that leaves another locale first makes that one the `default`")
     if ok and not os.environ.get("VERIF_FORCE_FALLBACK"):
-        return [r0]
+        return [r0, r5]
     # the negotiation code could not be evaluated abstractly (a construct outside rules/absint.py): fall back to the
     # structural clauses on the MIR / syntax of the same functions
     why = res[2] if len(res) > 2 else "anchor missing"
@@ -425,7 +433,7 @@ def run(ctx):
         r0.inst("evaluation not available", "fallback to structural rules R1-R4: %s" % str(why)[:120])
         r0.viol("R0:undecided", "the evaluation cannot interpret the current code (%s): the clauses it decides are NOT decided on this tree; the structural rules reported alongside only cover part of them (fail closed)" % str(why)[:300])
         r0.floor = 1
-    return [r0] + rules
+    return [r0] + rules + [r5]
 
 
 MANIFEST_ENTRY = {
